@@ -53,7 +53,7 @@ func checkC08(w *World, r *Report) {
 
 	r.Rule("R08.2", "a tab counts as 8 columns: one constant equal to 8 is read by both the quote-column computation and the indentation stripper, whose replacement blanks are 8 wide", 3)
 	r.guard("R08.2", func() {
-		ts, _ := p.Types.Scope().Lookup("tabSpaces").(*types.Const)
+		ts, _ := scopeLookup(p.Types.Scope(), "tabSpaces").(*types.Const)
 		if ts == nil {
 			panic(undecided{"parse.tabSpaces"})
 		}
@@ -126,7 +126,7 @@ func checkC08(w *World, r *Report) {
 			if !ok || len(cc.List) != 1 {
 				return true
 			}
-			if o := objOfIdent(p, cc.List[0]); o == nil || o.Name() != "itemString" {
+			if o := objOfIdent(p, cc.List[0]); o == nil || nm(o) != "itemString" {
 				return true
 			}
 			for _, s := range cc.Body {
@@ -168,13 +168,13 @@ func checkC08(w *World, r *Report) {
 			if !ok || len(cc.List) != 1 {
 				return true
 			}
-			if o := objOfIdent(p, cc.List[0]); o == nil || o.Name() != "itemPlus" {
+			if o := objOfIdent(p, cc.List[0]); o == nil || nm(o) != "itemPlus" {
 				return true
 			}
 			exp := w.Method("parse", "Tree", "expect")
 			hasQuote := false
 			for _, ce := range allCallsTo(p, cc, exp) {
-				if o := objOfIdent(p, ce.Args[0]); o != nil && o.Name() == "itemQuote" {
+				if o := objOfIdent(p, ce.Args[0]); o != nil && nm(o) == "itemQuote" {
 					hasQuote = true
 				}
 			}
@@ -557,7 +557,7 @@ func checkC10(w *World, r *Report) {
 				if !ok || c.Call.StaticCallee() == nil {
 					continue
 				}
-				switch c.Call.StaticCallee().Name() {
+				switch nm(c.Call.StaticCallee()) {
 				case "stmt":
 					stmtBlock = b
 				case "expect":
